@@ -63,7 +63,10 @@ RULE = (
 ASSUMPTIONS = [
     "spline family: |prediction - datum| <= 100 * kappa * eps * max|data| with kappa the 2-norm condition number of the reference Green's matrix "
     "after unit-variance column scaling (constant columns unscaled); cases with 100*kappa*eps >= 1e-3 are skipped as uninformative",
-    "scipy gridders: 1e-9 * max|data|; KNeighbors(k=1): exact equality; chains: tolerance of the last (exact) step on the residual it was given "
+    "scipy gridders: 1e-9 * max|data| + 100 * eps * (max|coordinate| / smallest point separation) * range(data) - positions carry a relative rounding of "
+    "eps*|coordinate|, which across the closest pair moves barycentric coordinates by that ratio; an interior data point whose finite error is "
+    "explained by the conditioning of a Delaunay triangle meeting there (100 eps |coordinate| (|v_i|+|v_j|)/|v_i x v_j| max|d_i - d_k|, for Cubic times "
+    "longest/shortest edge; triangulation recomputed with scipy.spatial.Delaunay, evaluated lazily) is counted either-way; KNeighbors(k=1): exact equality; chains: tolerance of the last (exact) step on the residual it was given "
     "plus 64 eps max(|data|, sum of |step predictions|)",
     "Trend reproduction: |predict(q) - p(q)| <= 100 * kappa_V * eps * max(sum_k |c_k m_k|) over data and query points, q inside twice the data bounding box, "
     "n >= number of coefficients",
@@ -172,6 +175,72 @@ def _forces_at_data(force_coords, east, north):
     return bool(same), ((fe, fn) if same else None)
 
 
+def _scipy_tol(rec):
+    """
+    Tolerance of the triangulation-based gridders at their own data points: 1e-9 max|d| plus the conditioning of the point set. The positions
+    enter with a relative rounding of eps * |coordinate|; across a closest pair s apart a piecewise-linear / cubic interpolant changes by up to the
+    data range, so barycentric coordinates known to eps * |coordinate| / s move the value by that fraction of the range (K = 100 as elsewhere).
+    Negligible for well separated clouds near the origin; it matters for points a few float64 ulps x 1e7 apart at large offsets.
+    """
+    if rec.info is None:
+        n = rec.east.size
+        if n >= 2:
+            d2 = (rec.east[:, None] - rec.east[None, :]) ** 2 + (rec.north[:, None] - rec.north[None, :]) ** 2
+            d2[np.diag_indices(n)] = np.inf
+            smin = float(np.sqrt(d2.min()))
+        else:
+            smin = np.inf
+        mag = max(float(np.max(np.abs(rec.east))), float(np.max(np.abs(rec.north)))) if n else 0.0
+        rec.info = {"geometric_conditioning": (mag / smin) if smin > 0 else np.inf}
+    spread = max((float(np.ptp(d)) if d.size else 0.0) for d in rec.data)
+    return SCIPY_RTOL * rec.scale() + K * EPS * rec.info["geometric_conditioning"] * spread
+
+
+def _sliver_bound(rec, k):
+    """
+    Largest error that the conditioning of the triangles meeting at data point k explains there. The triangulation is recomputed with
+    scipy.spatial.Delaunay (a geometry calculator, not verde code), in the given coordinates and in coordinates rescaled to the unit box (what
+    rescale=True triangulates). Positions are known to eps * |coordinate|; the barycentric coordinates of a point in a triangle with edge vectors
+    v_i, v_j then to eps * |coordinate| * (|v_i| + |v_j|) / |v_i x v_j|, and the value moves by that times the data differences across the
+    triangle - for the cubic interpolant times longest / shortest edge as well (its gradients scale with difference / shortest edge). K = 100.
+    """
+    import scipy.spatial
+
+    data = rec.data[0]
+    cubic = "ubic" in (rec.cfg.get("class", "") + rec.cfg.get("method", ""))
+    best = 0.0
+    for rescale in (False, True):
+        east, north = rec.east, rec.north
+        if rescale:
+            pe, pn = float(np.ptp(east)) or 1.0, float(np.ptp(north)) or 1.0
+            east, north = (east - east.mean()) / pe, (north - north.mean()) / pn
+            mag = max(float(np.max(np.abs(rec.east))) / pe, float(np.max(np.abs(rec.north))) / pn, 1.0)
+        else:
+            mag = max(float(np.max(np.abs(east))), float(np.max(np.abs(north))))
+        cache = rec.__dict__.setdefault("_simplices", {})
+        if rescale not in cache:
+            try:
+                cache[rescale] = scipy.spatial.Delaunay(np.stack([east, north], axis=1)).simplices
+            except Exception:  # noqa: BLE001
+                cache[rescale] = None
+        simplices = cache[rescale]
+        if simplices is None:
+            continue
+        for tri in simplices[(simplices == k).any(axis=1)]:
+            i, j = [int(v) for v in tri if v != k]
+            vi = np.array([east[i] - east[k], north[i] - north[k]])
+            vj = np.array([east[j] - east[k], north[j] - north[k]])
+            cross = abs(vi[0] * vj[1] - vi[1] * vj[0])
+            if cross == 0:
+                return np.inf
+            edges = [np.hypot(*vi), np.hypot(*vj), np.hypot(*(vi - vj))]
+            bound = K * EPS * mag * (edges[0] + edges[1]) / cross * max(abs(data[i] - data[k]), abs(data[j] - data[k]))
+            if cubic:
+                bound *= max(edges) / min(edges)
+            best = max(best, float(bound))
+    return best
+
+
 def _lookup(obj):
     rec = _S.records.get(id(obj))
     if rec is None or rec.ref() is not obj:
@@ -235,7 +304,7 @@ def _tol_of(obj):
     if rec.kind == "knn":
         return [0.0], None
     if rec.kind == "scipy":
-        return [SCIPY_RTOL * rec.scale()], None
+        return [_scipy_tol(rec)], None
     if rec.kind == "vector":
         out = []
         for comp in rec.cfg["components"]:
@@ -542,7 +611,7 @@ def install(tap, run):
             run.count("skipped:duplicate_points:scipy")
             return
         preds = found[0]
-        tol = SCIPY_RTOL * rec.scale()
+        tol = _scipy_tol(rec)
         rec.excused, rec.excused_nan = None, False
         if not rec.finite():
             run.count("skipped:non_finite_data:scipy")
@@ -575,7 +644,25 @@ def install(tap, run):
                     mask = np.zeros(rec.east.size, bool)
                     mask[which[on_edge]] = True
                     rec.excused, rec.excused_nan = [mask], bool(nan_there.any())
-        ratio = compare("scipy_exact", rec, preds, [SCIPY_RTOL * rec.scale()], key="scipy:" + rec.cfg["class"])
+        if len(preds) == 1 and preds[0].shape == rec.data[0].shape:
+            # geometry-and-data-only rule, evaluated lazily for interior points: a finite error is within the conditioning of the triangulation
+            # when the point forms a sliver with two other data points (see _sliver_bound)
+            err = np.abs(preds[0] - rec.data[0])
+            late = np.flatnonzero(np.isfinite(err) & ~(err <= tol))
+            if late.size:
+                keep = preds[0].copy()
+                mask = np.zeros(rec.east.size, bool) if rec.excused is None else rec.excused[0].copy()
+                for k in late:
+                    bound = _sliver_bound(rec, int(k))
+                    if err[k] <= bound:
+                        run.count("either_way:scipy_sliver_triangle_conditioning")
+                        run.observe_max("scipy_sliver_error_over_bound", float(err[k] / bound))
+                        keep[k] = rec.data[0][k]
+                        mask[k] = True
+                if mask.any():
+                    preds = [keep]
+                    rec.excused = [mask]
+        ratio = compare("scipy_exact", rec, preds, [tol], key="scipy:" + rec.cfg["class"])
         if ratio is not None:
             run.observe_max("err_over_tol:scipy" if rec.excused is None else "err_over_tol:scipy:clouds_with_either_way_hull_points", ratio)
             nontrivial(rec, "exact")
